@@ -123,4 +123,37 @@ def wfPosonlyItems (pre : Str) (i : Nat) : List Val → Bool
   | v :: rest => wfPosonly (subPre pre (dec i)) v && wfPosonlyItems pre (i + 1) rest
 end
 
+/-! ## `suppress_alias_pos` -/
+
+mutual
+/-- Tree-level `suppress_alias_pos`: a non-expression node of type `alias` below the root loses its
+position (the pattern needs a character before `/_type=alias`). -/
+def dropAliasPos (below : Bool) : Val → Val
+  | .node ty e r ln fs =>
+    .node ty e r (if below && ty == cs!"alias" && !e then none else ln) (dropAliasPosFields fs)
+  | .list q xs => .list q (dropAliasPosItems xs)
+  | .scalar r k => .scalar r k
+def dropAliasPosFields : List (Str × Val) → List (Str × Val)
+  | [] => []
+  | (n, v) :: rest => (n, dropAliasPos true v) :: dropAliasPosFields rest
+def dropAliasPosItems : List Val → List Val
+  | [] => []
+  | v :: rest => dropAliasPos true v :: dropAliasPosItems rest
+end
+
+mutual
+/-- Local clauses for `suppress_alias_pos`: no `=` in names and types; a scalar line neither ends with
+`/_type=alias` nor looks like a position line (`.+_pos=.+`). -/
+def wfAlias (pre : Str) : Val → Bool
+  | .node ty _ _ _ fs => !ty.contains '=' && wfAliasFields pre fs
+  | .list _ xs => wfAliasItems pre 1 xs
+  | .scalar r _ => !isAliasLine (scalarLine pre r) && !isPosLike (scalarLine pre r)
+def wfAliasFields (pre : Str) : List (Str × Val) → Bool
+  | [] => true
+  | (n, v) :: rest => !n.contains '=' && wfAlias (subPre pre n) v && wfAliasFields pre rest
+def wfAliasItems (pre : Str) (i : Nat) : List Val → Bool
+  | [] => true
+  | v :: rest => wfAlias (subPre pre (dec i)) v && wfAliasItems pre (i + 1) rest
+end
+
 end Paroxy.Flat
